@@ -92,6 +92,7 @@ func bufferCycle(c *eng.Ctx, fn *ssa.Function, fieldKey string, emit eng.Matcher
 func runC10(c *eng.Ctx) {
 	p := c.P
 	lookupMissIsFinalOnlyOnCurrentSnapshot(c)
+	cachedBucketIsNotRecycled(c)
 	forwardEntryIsFresh(c)
 
 	// ---- 1. walkers exhaustive and in agreement -----------------------------------------------------------------------------
